@@ -119,6 +119,8 @@ async def drive(c, tier, scripts, rnd):
             if not quick or ci < 4:
                 spec = [(relayrun.pressure_script(rnd), "ok", KINDS[(i + ci) % 3], 1 << 16) for i in range(2 if quick else 4)]
                 spec += [(relayrun.slow_drain_script(rnd, d), "ok", KINDS[(i + ci) % 3], 1 << 16) for i, d in enumerate(["up", "down"])]
+                if mbox is not None and not quic:
+                    spec += [(relayrun.slow_link_script(rnd, d), "ok", KINDS[(i + ci) % 3], 1 << 16) for i, d in enumerate(["down", "up"])]
                 ev = await relayrun.run_batch(dep, spec, vlib.seed() * 1000 + 800 + ci, fid0=3000, mbox=mbox, end_cap=max(end_cap, 25.0),
                                               settle_cap=12.0 if not quic else 45.0)
                 batches.append(ev)
@@ -152,11 +154,60 @@ def model(c, tier):
     c.cov["deviations_detected_by_model"] = seen
 
 
+def sink_contract(c, tier):
+    """SinkClose: TLC enumerates every schedule of sends, close polls and peer reads over a bounded transport (the design's
+    wb / Flush / SrcEof in isolation); each is replayed on the real WebSocketFramed sink in-process and the recorded
+    observations are validated against TraceSinkClose (CloseReadyMeansWritten)."""
+    r = vlib.tlc("SinkClose", "SinkClose.cfg", workers=2, timeout=600)
+    c.tlc_stats(r)
+    if not r.ok:
+        c.violation("model: SinkClose violates %s" % (r.violated or r.error), {"tail": r.out[-2000:]})
+    d = vlib.tlc("SinkClose", "SinkClose_dev_CloseSkipsFlush.cfg", workers=1, timeout=300)
+    if d.violated != "CloseReadyMeansWritten":
+        raise vlib.ToolError("anti-vacuity: deviation CloseSkipsFlush not detected by the SinkClose model")
+    scen = r.replay
+    if not scen:
+        raise vlib.ToolError("no sink schedules exported")
+    wd = os.path.join(vlib.WORK, "c15")
+    os.makedirs(wd, exist_ok=True)
+    path = os.path.join(wd, "sink.ndjson")
+    res = vlib.vh_json_lines(["c15-sink", "--out", path], stdin="\n".join(json.dumps(x) for x in scen) + "\n", timeout=900)[-1]
+    c.cov["sink_schedules_in_model"] = len(scen)
+    c.cov["sink_runs_replayed"] = res["runs"]
+    c.cov["sink_close_polls"] = {"ready": res["close_ready"], "pending": res["close_pending"]}
+    if res["close_pending"] == 0 or res["close_ready"] == 0:
+        raise vlib.ToolError("sink replay never saw both a pending and a completed close: back-pressure not reached")
+    acc, matched, tr = vlib.validate_trace("TraceSinkClose", "TraceSinkClose.cfg", path, timeout=900)
+    c.tlc_stats(tr)
+    if acc:
+        c.add("traces_validated_against_impl", res["runs"])
+        c.add("trace_events", matched)
+    else:
+        rows = open(path).read().splitlines()
+        lo = max(i for i in range(matched + 1) if json.loads(rows[i])["ev"] == "Reset")
+        seg = [json.loads(x) for x in rows[lo:matched + 1]]
+        c.violation("sink contract: poll_close of the real WebSocketFramed reported Ready while what it had accepted (or its Close frame) was "
+                    "not in the transport: %s" % json.dumps(seg[-1]), {"sink_run": seg})
+    # binding self-test: a Final that misses bytes must be rejected
+    rows = [json.loads(x) for x in open(path).read().splitlines()]
+    k = next(i for i, e in enumerate(rows) if e["ev"] == "Final" and e["n"] > 0)
+    lo = max(i for i in range(k + 1) if rows[i]["ev"] == "Reset")
+    seg = copy.deepcopy(rows[lo:k + 1])
+    seg[-1]["n"] -= 1
+    mp = os.path.join(wd, "sink_mutated.ndjson")
+    e2e.write_ndjson(mp, seg)
+    acc2, _, _ = vlib.validate_trace("TraceSinkClose", "TraceSinkClose.cfg", mp)
+    if acc2:
+        raise vlib.ToolError("binding self-test failed: a Final one byte short was accepted")
+    c.cov["sink_binding_selftest"] = "Final one byte short -> rejected"
+
+
 def run(tier):
     c = Check("C15", tier, "model_checking")
     c.cov["traces_validated_against_impl"] = 0
     rnd = random.Random(vlib.seed() + 15)
     model(c, tier)
+    sink_contract(c, tier)
     r = vlib.tlc("RelayScripts", "RelayScripts_c15%s.cfg" % ("q" if tier == "quick" else "t"), workers=4, timeout=1800)
     c.tlc_stats(r)
     if not r.ok:
@@ -179,6 +230,7 @@ def run(tier):
     c.cov["batches_held_at_idle_baseline"] = sum(1 for b in batches if any(e["ev"] == "Held" for e in b))
     cutseg = [s for b in batches for s in relayrun.split_flows(b) if any(e["ev"] == "Fault" for e in s)]
     c.sample({"flow_trace_with_link_cut": cutseg[0][:16]} if cutseg else {"flow_trace": relayrun.split_flows(batches[0])[0][:14]})
+    c.cov["max_seconds_to_idle_baseline"] = max(relayrun.SETTLE_TIMES or [0])
     self_test(c, batches)
     c.assumptions += [
         "loopback only; link failures are produced by a middlebox between client and server: reset of both link connections, orderly "
@@ -221,6 +273,15 @@ def self_test(c, batches):
 
 def replay(path):
     o = json.load(open(path))
+    if o["replay"].get("sink_run"):
+        p = os.path.join(vlib.WORK, "replay_c15_sink.ndjson")
+        e2e.write_ndjson(p, o["replay"]["sink_run"])
+        acc, matched, r = vlib.validate_trace("TraceSinkClose", "TraceSinkClose.cfg", p)
+        print("recorded sink run: accepted=%s matched=%d of %d" % (acc, matched, len(o["replay"]["sink_run"])))
+        if not acc:
+            print("VIOLATION property=C15 replay=%s" % path)
+            return 1
+        return 0
     seg = o["replay"].get("flow")
     if not seg:
         print(json.dumps(o, indent=1)[:3000])
